@@ -153,6 +153,55 @@ def open_burst(sizes):
                 pass
 
 
+def close_while_receiving(action):
+    """One thread waits in a blocking receive() / for-loop on a silent connection; another closes the port (or the peer
+    disconnects).  close() must return, the waiting call must end, and the peer must see the disconnect."""
+    from mido.sockets import SocketPort
+    a, b = socket.socketpair()
+    port = SocketPort('pair', 1, conn=a)
+    result = {}
+    try:
+        def waiter():
+            try:
+                if action.startswith('iter'):
+                    result['got'] = [msgs.canon_msg(m) for m in port]
+                else:
+                    result['got'] = port.receive()
+            except Exception as e:
+                result['exc'] = e
+        t = threading.Thread(target=waiter, daemon=True)
+        t.start()
+        time.sleep(0.1)
+        if action.endswith('close'):
+            c = threading.Thread(target=port.close, daemon=True)
+            c.start()
+            c.join(2)
+            if c.is_alive():
+                return f'close() from another thread does not return while a blocking {action.split("_")[0]} waits on a silent connection'
+            b.settimeout(1.0)
+            try:
+                if b.recv(1) != b'':
+                    return 'the peer received data instead of a disconnect'
+            except socket.timeout:
+                return 'after close() from another thread the peer sees no disconnect within 1 s'
+            except OSError:
+                pass
+        else:
+            b.close()
+        t.join(2)
+        if t.is_alive():
+            return f'the blocking {action.split("_")[0]} does not end after the {"port was closed by another thread" if action.endswith("close") else "peer disconnected"}'
+        if action.startswith('iter') and 'exc' in result:
+            return f'iteration ended with {type(result["exc"]).__name__}'
+        return None
+    finally:
+        for s_ in (a, b):
+            try:
+                s_.close()
+            except Exception:
+                pass
+
+
 def server_case(rng, burst=None, leave=0):
     """Two clients send to a loopback PortServer; poll() must hand out both without blocking."""
     import mido
@@ -319,6 +368,12 @@ def run(ck):
         f = open_burst(sizes)
         if f:
             ck.oracle_fail({'burst': sizes}, f)
+    for action in ('receive_close', 'iter_close', 'receive_peer', 'iter_peer'):
+        ck.evaluations += 1
+        ck.count('two_threads:' + action)
+        f = close_while_receiving(action)
+        if f:
+            ck.oracle_fail({'two_threads': action}, f)
     for leave in ([2, 6] if ck.tier == 'quick' else [1, 2, 3, 6, 20, 100]):
         ck.evaluations += 1
         ck.count('server_client_leaves')
@@ -342,6 +397,8 @@ def run(ck):
 def oracle(case):
     if 'close_visible' in case:
         return close_visible()
+    if 'two_threads' in case:
+        return close_while_receiving(case['two_threads'])
     if 'burst' in case:
         return open_burst(case['burst'])
     if 'server' in case:
